@@ -309,16 +309,16 @@ Section Splitters.
       apply N.eqb_eq in E. subst. exfalso. apply H2. reflexivity.
   Qed.
 
-  Theorem parse_string_safe fixed t : forall s, safe (parse_string isp fixed true t s).
+  Theorem parse_string_gen_safe fixed ft t : forall s, safe (parse_string_gen isp fixed true ft t s).
   Proof.
-    induction t as [| |w|w| |e IH| | |k IHk v IHv|]; intros s; cbn [parse_string].
+    induction t as [| |w|w| |e IH| | |k IHk v IHv|]; intros s; cbn [parse_string_gen].
     - apply (parse_scalar_safe TStr).
     - apply (parse_scalar_safe TBool).
     - apply (parse_scalar_safe (TInt w)).
     - apply (parse_scalar_safe (TUint w)).
     - apply (parse_scalar_safe TDur).
     - apply safe_obind; [apply string_slice_safe|]. intros l.
-      assert (H : safe (omap VList (map_out (fun x => v <- parse_string isp fixed true e x ;;
+      assert (H : safe (omap VList (map_out (fun x => v <- parse_string_gen isp fixed true ft e (tok ft e x) ;;
                                                        if true || scalar_kind e then Ok v else Panic p_elem_panic) l))).
       { apply safe_omap, map_out_safe. intros x. apply safe_obind; [apply IH|]. intros; triv. }
       destruct e; try exact H. triv.
@@ -329,6 +329,9 @@ Section Splitters.
       destruct (existsb _ m); [triv|]. apply safe_obind; [apply parse_scalar_safe|]. intros; triv.
     - triv.
   Qed.
+
+  Theorem parse_string_safe fixed t : forall s, safe (parse_string isp fixed true t s).
+  Proof. apply parse_string_gen_safe. Qed.
 End Splitters.
 
 (* the nested-slice panic of the pinned parse.String (fixed_elem = false) *)
@@ -390,15 +393,20 @@ Lemma mss_parse_total_l isp s : total (mss_parse isp s). Proof. apply safe_total
 Lemma parse_string_total_l isp t s : total (parse_string isp true true t s).
 Proof. apply safe_total, parse_string_safe. Qed.
 
-(* Observation (candidate finding, see notes/C15.md): through parse.String's
-   generic slice path a blank *after* an unquoted element stays in the token
-   (blank is an identifier rune of the custom IsIdentRune), so integer
-   elements do not tolerate trailing blanks there, while leading blanks are
-   skipped; the integral slice parsers trim both sides (C15 int_accepts_go_forms). *)
-Example typed_int_slice_trailing_blank :
-  class_of (parse_string (mk_print []) true true (TSlice (TInt IInt)) (s2r "1 ,2")) = CErr /\
-  parse_string (mk_print []) true true (TSlice (TInt IInt)) (s2r "1, 2") = Ok (VList [VInt 1; VInt 2]) /\
+(* The trailing blank (fix: commit "parse.String trims blanks around non-string slice
+   elements and map keys/values"): before the fix (fixed_trim = false) a blank after an
+   unquoted element stayed in the token and integer elements failed on it, while blanks
+   before the element were skipped; the integral slice parsers always trimmed both sides. *)
+Example trailing_blank_pre_fix_refuted :
+  class_of (parse_string_gen (mk_print []) true true false (TSlice (TInt IInt)) (s2r "1 ,2")) = CErr /\
+  parse_string_gen (mk_print []) true true false (TSlice (TInt IInt)) (s2r "1, 2") = Ok (VList [VInt 1; VInt 2]) /\
   signed_slice IInt (s2r "1 ,2") = Ok [1; 2]%Z.
+Proof. repeat split; vm_compute; reflexivity. Qed.
+
+Example trailing_blank_fixed :
+  parse_string (mk_print []) true true (TSlice (TInt IInt)) (s2r " 1 , 2 ,3 ") = Ok (VList [VInt 1; VInt 2; VInt 3]) /\
+  parse_string (mk_print []) true true (TMap TStr (TUint U8)) (s2r "a: 1 ,b:2 ") = Ok (VMap [(VStr (s2r "a"), VInt 1); (VStr (s2r "b"), VInt 2)]) /\
+  parse_string (mk_print []) true true (TSlice TStr) (s2r "a b , c") = Ok (VList [VStr (s2r "a b "); VStr (s2r "c")]).
 Proof. repeat split; vm_compute; reflexivity. Qed.
 
 (* ------------------------------------------------------------------ *)
